@@ -114,10 +114,12 @@ def rule_from_error(ctx, rule_id="C18.2-error-to-exception-never-lost"):
         # parameters of the generic constructor that a keyword of the same name would collide with (positional-or-keyword ones)
         ae = ctx.program.cls("autobahn.wamp.exception.ApplicationError").methods["__init__"]
         collide = {x.arg for x in ae.node.args.args}
-        for registered, args, kw, ctor in itertools.product((True, False), (None, [], [Sym("a0")]), (None, {}, {"k": Sym("v")}, {"error": Sym("v")}, {"self": Sym("v")}),
-                                                            ("ok", "ok-falsy", "TypeError", "ValueError", "KeyError", "RuntimeError")):
+        for registered, args, kw, ctor, hook in itertools.product((True, False), (None, [], [Sym("a0")]), (None, {}, {"k": Sym("v")}, {"error": Sym("v")}, {"self": Sym("v")}),
+                                                                  ("ok", "ok-falsy", "TypeError", "ValueError", "KeyError", "RuntimeError"), ("returns", "raises")):
             if not registered and ctor != "ok":
                 continue
+            if hook == "raises" and (ctor in ("ok", "ok-falsy") or args is None or kw not in (None, {"k": kw and kw.get("k")})):
+                continue  # the application's onUserError override matters only when it is called (constructor failed); one payload shape suffices
             cells += 1
             built = []
 
@@ -134,6 +136,8 @@ def rule_from_error(ctx, rule_id="C18.2-error-to-exception-never-lost"):
                     if set(k_ or {}) & collide:
                         raise TinyRaise("TypeError")  # got multiple values for argument ...
                     return Sym("ApplicationError", args=list(a_), kwargs=dict(k_ or {}))
+                if f_ == "self.onUserError" and hook == "raises":
+                    raise TinyRaise("RuntimeError")  # an application override that re-raises ("strict" sessions)
                 return Sym(f"<{f_}>")
             msg = fn.params()[1]
             env = {f"{msg}.enc_algo": None, f"{msg}.error": "com.err", f"{msg}.args": args, f"{msg}.kwargs": kw, "self": Sym("session"),
@@ -142,7 +146,8 @@ def rule_from_error(ctx, rule_id="C18.2-error-to-exception-never-lost"):
             t = Tiny(env, default_call=default)
             r = t.run(body)
             cell = (f"error URI {'registered' if registered else 'not registered'}, args {args}, kwargs {kw}, constructor "
-                    f"{'accepts' if ctor == 'ok' else ('accepts (instances are falsy)' if ctor == 'ok-falsy' else 'raises ' + ctor)}")
+                    f"{'accepts' if ctor == 'ok' else ('accepts (instances are falsy)' if ctor == 'ok-falsy' else 'raises ' + ctor)}"
+                    f"{', onUserError override raises' if hook == 'raises' else ''}")
             if r[0] != "return" or not isinstance(r[1], Sym):
                 probs.append(f"{cell}: no exception object is returned ({r[0]} {r[1]}): the remote error is lost, the pending call never fails")
                 continue
@@ -246,7 +251,51 @@ def rule_caller_side(ctx):
     ctx.ob("callee side builds the ERROR from the raised exception object", ok, "changed", err[0].loc())
 
 
+def rule_rendering_is_pure(ctx):
+    """"... the same keyword arguments": an error object is rendered (str(), logging, txaio.failure_message in the invocation's errback) before it
+    is turned into the ERROR message or re-raised to the next caller.  Rendering must not change what it carries.  The string conversions of
+    ApplicationError are evaluated (sa.core.tiny) on an error with args and kwargs, once with and once without a forwarded traceback."""
+    from ..core.tiny import Tiny, Sym
+    ctx.rule("C18.6-rendering-an-error-does-not-alter-it")
+    cls = ctx.program.cls("autobahn.wamp.exception.ApplicationError")
+    probs, n = [], 0
+    for mname in ("__str__", "__unicode__", "__repr__", "error_message"):
+        fn = ctx.program.lookup_method(cls, mname)
+        if fn is None:
+            continue
+        ctx.analysed(fn)
+
+        def inl(name, _cls=cls):
+            m_ = ctx.program.lookup_method(_cls, name)
+            return m_.node if m_ is not None else None
+        for with_tb in (True, False):
+            kw = {"k": Sym("value")}
+            if with_tb:
+                kw["traceback"] = "Traceback (most recent call last): ..."
+            before = dict(kw)
+            args = [Sym("positional")]
+            env = {"self": Sym("error"), "self.kwargs": kw, "self.args": args, "self.error": "com.myapp.error", "self.enc_algo": None, "self.callee": None,
+                   "self.callee_authid": None, "self.callee_authrole": None, "self.forward_for": None}
+            try:
+                t = Tiny(env, default_call=lambda f_, a_, k_=None: Sym(f"<{f_}>"), inline_self=inl, model_strings=True, model_types=True, opaque_globals=True)
+                r = t.run([x for x in fn.node.body if not (isinstance(x, ast.Expr) and isinstance(x.value, ast.Constant))])
+            except AnalysisError as e:
+                raise AnalysisError(f"[C18.6-rendering-an-error-does-not-alter-it] ApplicationError.{mname} outside the modelled subset: {e}")
+            n += 1
+            tag = f"{mname}() of an error {'with' if with_tb else 'without'} a forwarded traceback"
+            now = t.env.get("self.kwargs")
+            if r[0] == "raise":
+                probs.append(f"{tag}: raises {r[1]}")
+            elif now is not kw or set(kw) != set(before) or any(kw[k_] is not before[k_] and kw[k_] != before[k_] for k_ in before):
+                probs.append(f"{tag}: kwargs afterwards {now if now is not kw else kw}, before {before} -- the error forwarded or re-raised after being rendered is not the error that was raised")
+            elif len(args) != 1:
+                probs.append(f"{tag}: args changed")
+    ctx.ob(f"rendering an ApplicationError as text leaves its args and kwargs untouched [{n} cells]", not probs, "; ".join(probs[:2]), cls.loc())
+    ctx.require(n >= 4, f"only {n} cells")
+
+
 def run(ctx):
+    rule_rendering_is_pure(ctx)
     # "... with its URI, args and kwargs": what the exception carried must also survive ERROR.marshal()
     from .c03 import rule_payload_marshal_cells
     rule_payload_marshal_cells(ctx, "C18.5-error-message-carries-args-and-kwargs", only=("Error",))
